@@ -587,8 +587,23 @@ def gen_history(rng, ops_desc, nmax, workdir, add_all=False):
                 c = ["clear"]
                 moved = {}
             elif r < 0.80:
-                c = ["modify", rng.choice(NAMES), rng.choice(KINDS[1:]),
-                     rng.choice([None, None, [], [rng.choice(SETTINGS)], [SETTINGS[0], SETTINGS[2]]])]
+                # type changes, settings-only changes (the type given is the one the patch has, the default
+                # "patch" included), repeated changes of one patch, names no operation uses; before and after assemble
+                prev = [x for x in hist if x[0] == "modify"]
+                if prev and rng.random() < 0.35:
+                    name = rng.choice(prev)[1]
+                else:
+                    name = rng.choice(NAMES + ["px"])
+                last = [x for x in prev if x[1] == name]
+                q = rng.random()
+                if q < 0.35:
+                    kind = last[-1][2] if last else "patch"  # no type change
+                elif q < 0.5:
+                    kind = "patch"
+                else:
+                    kind = rng.choice(KINDS[1:])
+                c = ["modify", name, kind,
+                     rng.choice([None, [], [rng.choice(SETTINGS)], [rng.choice(SETTINGS)], [SETTINGS[0], SETTINGS[2]]])]
             elif r < 0.84:
                 c = ["default", rng.choice(NAMES + ["dflt"]), rng.choice(KINDS)]
             elif r < 0.87:
@@ -618,9 +633,12 @@ def gen_history(rng, ops_desc, nmax, workdir, add_all=False):
 # Coq literals
 
 
+EXTRA_NAMES = ["dflt", "px"]  # names no operation ever uses (default patch, modify of an unused name)
+
+
 def nid(name):
-    if name == "dflt":
-        return len(NAMES)
+    if name in EXTRA_NAMES:
+        return len(NAMES) + EXTRA_NAMES.index(name)
     return NAMES.index(name)
 
 
@@ -865,6 +883,11 @@ CORPUS = [
     [["add", 0], ["add", 1], ["assemble"], ["delete", 0], ["move", 9, [0, 1, 0]], ["backport"], ["write"]],
     [["add", 1], ["add", 0], ["assemble"], ["modify", "pb", "symmetry", None], ["clear"], ["delete", 1], ["write"], ["write"]],
     [["add", 0], ["add", 1], ["merge", "pa", "pc"], ["write"], ["backport"], ["write"]],
+    # settings without a type change (seeded mutation: modify() returned early when the type was already the one given)
+    [["add", 0], ["modify", "pa", "patch", ["inGroups (g1)"]], ["assemble"], ["clear"], ["write"]],
+    [["add", 0], ["add", 1], ["assemble"], ["modify", "pb", "patch", ["transform none"]], ["move", 0, [0, 1, 0]], ["backport"], ["write"]],
+    [["add", 0], ["modify", "pa", "wall", None], ["modify", "pa", "wall", ["neighbourPatch pb"]], ["write"], ["clear"],
+     ["modify", "px", "patch", ["inGroups (g1)"]], ["write"], ["clear"], ["write"]],
 ]
 
 
